@@ -668,11 +668,11 @@ theorem fstep_removeCrate {d : Db} (hW : Forest.Wf (absF d)) (c : Int) : FStep d
     left
     exact spec_remove_rej (by rw [← plExists_eq_live]; exact he')
 
-theorem peAddBack_cases (d : Db) (l t : Int) (f : Bool) :
-    (∃ e, peAddBack d l t f = (d, .throw e)) ∨
-    (∃ out, (peAddBack d l t f).2 = .ok out ∧ (peAddBack d l t f).1.pl = d.pl ∧ (peAddBack d l t f).1.plSeq = d.plSeq) := by
+theorem peAddBack_cases (d : Db) (l t u : Int) (f : Bool) :
+    (∃ e, peAddBack d l t u f = (d, .throw e)) ∨
+    (∃ out, (peAddBack d l t u f).2 = .ok out ∧ (peAddBack d l t u f).1.pl = d.pl ∧ (peAddBack d l t u f).1.plSeq = d.plSeq) := by
   unfold peAddBack
-  cases peGet d l t with
+  cases peFind d l t u with
   | some e =>
     cases f with
     | true => left; exact ⟨_, rfl⟩
@@ -700,8 +700,8 @@ theorem fstep_other {d : Db} {op : Op} (hf : forestOp op = none) : FStep d op :=
   | addTrack c t =>
     by_cases he : plExists d c = true
     · by_cases ht : t ∈ d.tracks
-      · have hstep : step d (.addTrack c t) = peAddBack d c t false := by simp [step, he, ht]
-        rcases peAddBack_cases d c t false with ⟨e, h⟩ | ⟨out, h1, h2, h3⟩
+      · have hstep : step d (.addTrack c t) = peAddBack d c t 0 false := by simp [step, he, ht]
+        rcases peAddBack_cases d c t 0 false with ⟨e, h⟩ | ⟨out, h1, h2, h3⟩
         · exact .throws e (by rw [hstep, h]) hvac
         · exact .okN out (by rw [hstep, h1]) hf (by rw [hstep, h2]) (by rw [hstep, h3])
       · exact .throws (exn "track_deleted") (by simp [step, he, ht]) hvac
@@ -712,9 +712,9 @@ theorem fstep_other {d : Db} {op : Op} (hf : forestOp op = none) : FStep d op :=
     | some e => exact .okN none (by simp [step, hg]) hf (by simp [step, hg]) (by simp [step, hg])
     | none => exact .okN none (by simp [step, hg]) hf (by simp [step, hg]) (by simp [step, hg])
   | clearTracks c => exact .okN none rfl hf rfl rfl
-  | peAddBack l t f =>
-    have hstep : step d (.peAddBack l t f) = peAddBack d l t f := rfl
-    rcases peAddBack_cases d l t f with ⟨e, h⟩ | ⟨out, h1, h2, h3⟩
+  | peAddBack l t u f =>
+    have hstep : step d (.peAddBack l t u f) = peAddBack d l t u f := rfl
+    rcases peAddBack_cases d l t u f with ⟨e, h⟩ | ⟨out, h1, h2, h3⟩
     · exact .throws e (by rw [hstep, h]) hvac
     · exact .okN out (by rw [hstep, h1]) hf (by rw [hstep, h2]) (by rw [hstep, h3])
   | peRemove l e =>
@@ -740,7 +740,7 @@ theorem fstep {d : Db} (hW : Forest.Wf (absF d)) (op : Op) : FStep d op := by
   | addTrack c t => exact fstep_other rfl
   | removeTrackFrom c t => exact fstep_other rfl
   | clearTracks c => exact fstep_other rfl
-  | peAddBack l t f => exact fstep_other rfl
+  | peAddBack l t u f => exact fstep_other rfl
   | peRemove l e => exact fstep_other rfl
   | peClear l => exact fstep_other rfl
 
